@@ -1038,12 +1038,20 @@ inductive Op
   | block
   | chanClose (c : Nat)
   | chanOpen (c : Nat)
+  | timeoutOnClose (c seq : Nat)
   deriving Repr, Inhabited
 
 /-- the channel end's state is written: CLOSED (`ChanCloseConfirm`) or OPEN again -/
 def setChanClosed (s : St) (c : Nat) (closed : Bool) : M St :=
   if s.chans.length ≤ c then .error .invalid else
   .ok { s with closed := if closed then (if s.closed.contains c then s.closed else s.closed ++ [c]) else s.closed.filter (· != c) }
+
+/-- `MsgTimeoutOnClose`: `IBCProofHeightDecorator` (app/ante) stashes a proof height for `MsgRecvPacket`,
+    `MsgAcknowledgement` and `MsgTimeout` only, so delayedack's `OnTimeoutPacket` finds none
+    (`UnpackPacketProofHeight`: `gerrc.ErrInternal`, before the channel is even looked at) and the whole
+    message fails — on rollapp channels and on plain ones alike.  (Redelivery is core's no-op before that.) -/
+def timeoutOnClose (s : St) (c seq : Nat) : M St :=
+  if !s.commits.contains (c, seq) then .ok s else .error .internal
 
 inductive Out
   | ok | err (e : Err) | recv (r : RecvRes) | replay
@@ -1083,6 +1091,7 @@ def step (s : St) : Op → St × Out
   | .block => ({ s with h := s.h + 1 }, .ok)
   | .chanClose c => ofM s (setChanClosed s c true)
   | .chanOpen c => ofM s (setChanClosed s c false)
+  | .timeoutOnClose c seq => ofM s (timeoutOnClose s c seq)
 
 def run (s : St) (ops : List Op) : St := ops.foldl (fun s o => (step s o).1) s
 
